@@ -205,8 +205,32 @@ func VH_C15_rule_pair() {
 	op1 := QoSRuleOperationCode(vrt.Choose("op1", 1, 6))
 	k := vrt.Choose("kind", 0, 17)
 	r0, e0 := c15rule("r0", op0, [][]int{{k}})
-	r1, e1 := c15rule("r1", op1, nil)
+	var k1 [][]int
+	if vrt.Bool("r1filter") {
+		k1 = [][]int{{(k + 5) % 18}} // the second rule carries a filter too: nothing of the first rule's operation may leak into it
+	}
+	r1, e1 := c15rule("r1", op1, k1)
 	c15checkRules(QoSRules{r0, r1}, append(e0, e1...))
+}
+
+// three rules, each either "modify and delete filters" (identifier-only filter list) or an operation with full
+// filters, in every order: the per-rule choice of filter-list format is independent of the rules before it
+func VH_C15_rule_triple() {
+	var rules QoSRules
+	var want []byte
+	for i := 0; i < 3; i++ {
+		op := OperationCodeCreateNewQoSRule
+		switch vrt.Choose(fmt.Sprintf("op%d", i), 0, 2) {
+		case 1:
+			op = OperationCodeModifyExistingQoSRuleAndDeletePacketFilters
+		case 2:
+			op = OperationCodeModifyExistingQoSRuleAndReplaceAllPacketFilters
+		}
+		r, e := c15rule(fmt.Sprintf("r%d", i), op, [][]int{{(3*i + 1) % 18}, {(3*i + 9) % 18}})
+		rules = append(rules, r)
+		want = append(want, e...)
+	}
+	c15checkRules(rules, want)
 }
 
 // all 18 component kinds in one filter; 15 filters in one rule
